@@ -11,6 +11,7 @@ CONSTANTS
     MaxNow = 6
     MaxOps = 4
     MaxQ = 2
+    EmptyOn = 0
     Hist = FALSE
 INVARIANT Inv
 CHECK_DEADLOCK FALSE
